@@ -38,7 +38,7 @@ class CustomError(Exception):
 EAGER = ["ack", "nack", "reject", "reschedule", "retry", "force_retry"]
 EAGER_MODS = ["plain", "set_result", "set_exception", "callback", "raising_callback"]
 BEHAVIOURS = (
-    ["return", "raise_value", "raise_custom", "timeout", "bad_json", "bad_args", "dep_raises", "bad_return"]
+    ["return", "raise_value", "raise_custom", "timeout", "bad_json", "bad_args", "dep_raises", "bad_return", "raise_cancelled"]
     + [f"{e}/{m}" for e in EAGER for m in EAGER_MODS]
 )
 
@@ -76,6 +76,11 @@ def make_actors(x, worker, converter):
         if b == "raise_custom":
             actor_log(w, mid, "fail")
             raise CustomError("custom")
+        if b == "raise_cancelled":
+            actor_log(w, mid, "fail")
+            # ends in the cancelled state although nobody cancels the processing (e.g. the actor
+            # awaited something that had been cancelled): a failed execution like any other
+            raise asyncio.CancelledError()
         if b == "bad_return":
             actor_log(w, mid, "fail")
             return object()  # finishes normally, but the converter cannot encode the value: a failed execution
@@ -154,7 +159,7 @@ def cells(tier):
                                 out.append(dict(kind=kind, conv=conv, b=[b], max=mx, tried=tried,
                                                 recurring=recurring, store=store))
     # concurrency: all ordered pairs (one representative modifier per eager action) + bystander
-    reps = ["return", "raise_value", "timeout", "bad_json", "dep_raises", "bad_return"] + [f"{e}/plain" for e in EAGER] + \
+    reps = ["return", "raise_value", "timeout", "bad_json", "dep_raises", "bad_return", "raise_cancelled"] + [f"{e}/plain" for e in EAGER] + \
            ["ack/raising_callback", "retry/set_result"]
     if tier == "thorough":
         reps = list(BEHAVIOURS)
